@@ -1,19 +1,24 @@
 """C09 — L-BFGS two-loop recursion equals the dense BFGS inverse Hessian of its history.
 proof: Properties_C09.v (Lbfgs.v at the real instance: ring refinement for all op sequences, two-loop = H,
        H symmetric / secant / positive definite, update_valid = documented test, masked apply formula,
-       apply_after_masked_refuted);
+       apply_masked leaves the stored history and its ρ alone, so apply = H after ANY interleaving);
 correspondence: Lbfgs.v at binary64 (Corr_C09.chk09) vs drv_C09 (the real alpaqa::LBFGS, public API only),
        every observable after every operation of a sequence;
 oracle: independent of the Coq model — abstract bounded history kept from the inputs and the documented acceptance
        test; exact-rational DENSE BFGS matrix (H⁺ = VᵀHV + ρssᵀ) of the stored pairs times q compared with what
-       apply / apply_masked returned; symmetry, secant equation, positive definiteness on the implementation's
-       own dense matrix (n applies on unit vectors)."""
+       apply / apply_masked returned (also after apply_masked calls: the clause that found the former defect F7,
+       repaired by /repo 9c14560e5); the stored s, y, ρ must be bit-for-bit the same before and after apply_masked;
+       symmetry, secant equation, positive definiteness on the implementation's own dense matrix (n applies on
+       unit vectors)."""
 import math, itertools
 from fractions import Fraction as Fr
 from vf.core import *
 
 EPS = 2.0 ** -52
-KNOWN_SIG = "C09:apply-after-masked-uses-overwritten-rho"
+# signatures of the two ways a write of apply_masked into the stored history shows up (the defect fixed by 9c14560e5;
+# listed as kind=fixed in known_findings.json, i.e. nothing is suppressed: a reappearance is a VIOLATION)
+MASKED_WRITES_SIG = "C09:apply_masked-modifies-stored-history"
+OVERWRITTEN_RHO_SIG = "C09:apply-after-masked-uses-overwritten-rho"
 
 # --------------------------------------------------------------------------- small helpers
 
@@ -132,7 +137,8 @@ def magnitude_bound(pairs, rhos, γ, q):
     return max(qa + [1e-300])
 
 def two_loop_with_stored_rho(pairs, rhos, γ, q):
-    """the two-loop recursion evaluated with the ρ values the implementation has in storage (attribution of F7 only)"""
+    """the two-loop recursion evaluated with the ρ values the implementation has in storage (only used to attribute a
+    wrong apply() result to ρ values overwritten by an earlier apply_masked, which selects the violation signature)"""
     q = list(q); al = []
     for (s, y), r in zip(reversed(pairs), reversed(rhos)):
         a = r * fdot(s, q); al.append(a)
@@ -300,13 +306,31 @@ def valid_cases(rng, N):
 def gen_cases(ctx):
     rng = ctx.rng
     seqs = []
-    # corpus: the minimal replay of F7 and boundary cases always run first
+    # corpus: the minimal replay of the former F7 (apply after apply_masked), NaN-mark life cycle, boundary cases; always run first
     p0 = P(2, EPS, EPS * EPS, 1.0, 0.0, 1, 1)
     seqs.append(dict(kind="corpus", p=p0, n=2, word="F7-minimal", ops=[
         dict(op="updsy", s=[1.0, 1.0], y=[2.0, 1.0], pp=0.0, forced=0),
         dict(op="apply", q=[1.0, 0.0], γ=-1.0),
         dict(op="applym", q=[1.0, 0.0], γ=-1.0, J=[0]),
         dict(op="apply", q=[1.0, 0.0], γ=-1.0)]))
+    # pair A is invalid on J={1} (marked through α), valid on J={0} (mark must be cleared), marked again; apply in between and after
+    seqs.append(dict(kind="corpus", p=P(2, EPS, EPS * EPS, 1.0, 0.0, 1, 0), n=2, word="nan-mark-life-cycle", ops=[
+        dict(op="updsy", s=[1.0, 0.0], y=[2.0, 1.0], pp=0.0, forced=0),
+        dict(op="updsy", s=[0.5, 1.0], y=[1.0, 3.0], pp=0.0, forced=0),
+        dict(op="applym", q=[1.0, 1.0], γ=1.0, J=[1]),
+        dict(op="apply", q=[1.0, -2.0], γ=0.5),
+        dict(op="applymv", q=[1.0, 1.0], γ=0.5, J=[0]),
+        dict(op="applym", q=[-1.0, 2.0], γ=-1.0, J=[1]),
+        dict(op="applym", q=[-1.0, 2.0], γ=2.0, J=[0, 1]),
+        dict(op="apply", q=[1.0, 0.0], γ=-1.0)]))
+    # n = 3 with two-element index sets: the smallest size where the ρ of the second masked loop matters (with one index the
+    # first loop already zeroes q on J, so β = 0 whatever ρ is)
+    seqs.append(dict(kind="corpus", p=P(2, EPS, EPS * EPS, 1.0, 0.0, 1, 0), n=3, word="masked-second-loop-rho", ops=[
+        dict(op="updsy", s=[1.0, 0.5, 0.0], y=[4.5, 2.5, 0.25], pp=0.0, forced=0),
+        dict(op="updsy", s=[0.0, 1.0, 1.0], y=[1.0, 3.5, 2.5], pp=0.0, forced=0),
+        dict(op="applym", q=[1.0, 2.0, -1.0], γ=0.75, J=[0, 1]),
+        dict(op="applymv", q=[1.0, 2.0, -1.0], γ=-1.0, J=[1, 2]),
+        dict(op="apply", q=[1.0, 2.0, -1.0], γ=-1.0)]))
     seqs.append(dict(kind="corpus", p=P(0, EPS, EPS * EPS, 1.0, 0.0, 1, 1), n=2, word="memory0", ops=[]))
     seqs.append(dict(kind="corpus", p=P(1, EPS, EPS * EPS, 1.0, 1.0, 1, 1), n=2, word="cbfgs-masked-throws", ops=[
         dict(op="applym", q=[1.0, 0.0], γ=1.0, J=[0]),
@@ -390,8 +414,10 @@ class Bad(Exception):
     def __init__(self, sig, why, k):
         self.sig, self.why, self.k = sig, why, k
 
-def oracle_seq(ctx, sq, outs, stats):
+def oracle_seq(ctx, sq, outs, stats, soft):
     """walks one sequence; raises Bad(signature, why, op index) at the first property failure.
+    A write of apply_masked into the stored history is appended to `soft` (once per sequence) and the walk goes on, so that
+    its consequence — a later apply() that is not the dense BFGS operator — is found and reported with its own replay too.
     Independent of the Coq model: abstract bounded history + documented test + dense BFGS in exact rationals."""
     p = sq["p"]; n = sq["n"]
     r0 = outs[0]
@@ -402,7 +428,8 @@ def oracle_seq(ctx, sq, outs, stats):
     if r0["ret"] != 2 or r0["hist"] != p.mem or r0["ch"] != 0:
         raise Bad("C09:construction", "constructor: ret=%s history()=%s current_history()=%s" % (r0["ret"], r0.get("hist"), r0.get("ch")), -1)
     H = []               # abstract history, oldest first: [(s, y)]
-    masked_seen = False  # an apply_masked ran on a non-empty history since the last reset
+    masked_seen = False  # an apply_masked ran on a non-empty history since the last reset (attribution only)
+    rho_flagged = False  # a stored-ρ failure of this sequence is already in `soft`
     dense_cols = []
     for k, (o, r) in enumerate(zip(sq["ops"], outs[1:])):
         kind = o["op"]
@@ -470,11 +497,19 @@ def oracle_seq(ctx, sq, outs, stats):
             e = 1.0 / ys
             if not close(R[i], e, 1e-9):
                 rho_bad.append(i)
-        if rho_bad and not masked_seen and kind not in ("applym", "applymv"):
+        if kind in ("applym", "applymv"):
+            # apply_masked is const on the history: s, y, ρ read through the accessors are bit-for-bit what they were before the call
+            prev = outs[k]
+            changed = [key for key in ("S", "Y", "R", "fwd") if r[key] != prev[key]]
+            if changed and not rho_flagged:
+                rho_flagged = True
+                soft.append(Bad(MASKED_WRITES_SIG, "apply_masked(q=%s, γ=%s, J=%s) changed the stored %s: before %s, after %s (stored pairs %s)"
+                                % (o["q"], o["γ"], o["J"], "/".join(changed), {c: [unhex(x) for x in prev[c]] if c != "fwd" else prev[c] for c in changed},
+                                   {c: [unhex(x) for x in r[c]] if c != "fwd" else r[c] for c in changed}, H), k))
+            stats["masked_history_unchanged_checked"] += 1
+        if rho_bad and not rho_flagged:
             raise Bad("C09:stored-rho-not-reciprocal-curvature", "ρ of pair %s is %s, 1/yᵀs = %s" %
                       (rho_bad[0], R[rho_bad[0]], 1.0 / fdot(H[rho_bad[0]][1], H[rho_bad[0]][0]) if fdot(H[rho_bad[0]][1], H[rho_bad[0]][0]) else "inf"), k)
-        if rho_bad:
-            stats["ops_with_overwritten_rho"] += 1
         # ---- apply
         if kind == "apply":
             q_in = o["q"]; q_out = U("q")
@@ -518,7 +553,7 @@ def oracle_seq(ctx, sq, outs, stats):
                 why = ("apply(q=%s, γ=%s) with stored pairs %s returned %s; dense BFGS inverse Hessian of the stored pairs gives %s"
                        % (q_in, γ, H, q_out, [float(e) for e in exp]))
                 if masked_seen and prev_bad and same_as_alt:
-                    raise Bad(KNOWN_SIG, why + "; stored ρ = %s were overwritten by apply_masked (1/yᵀs = %s)" % (prevR, rhos_true), k)
+                    raise Bad(OVERWRITTEN_RHO_SIG, why + "; stored ρ = %s were overwritten by apply_masked (1/yᵀs = %s)" % (prevR, rhos_true), k)
                 raise Bad("C09:apply-differs-from-dense-bfgs", why, k)
             stats["apply_checked"] += 1
             # dense block bookkeeping
@@ -623,7 +658,7 @@ def oracle_seq(ctx, sq, outs, stats):
             if len(HJ) < len(H):
                 stats["masked_with_skipped_pairs"] += 1
 
-def seq_signature(sq, outs):
+def seq_signature(sq, outs, marked=False):
     p = sq["p"]
     kinds = [o["op"] for o in sq["ops"]]
     acc = sum(1 for o, r in zip(sq["ops"], outs[1:]) if o["op"] in ("updsy", "upd") and r["ret"] == 1)
@@ -636,7 +671,8 @@ def seq_signature(sq, outs):
         if kd in kinds: fl.append(kd)
     if any(r["ret"] == 3 for r in outs): fl.append("throw")
     if any(o["op"].startswith("applym") and r["ret"] == 0 for o, r in zip(sq["ops"], outs[1:])): fl.append("mfalse")
-    if any(any(t == "nan" for t in r.get("R", [])) for r in outs): fl.append("nanmark")
+    if marked: fl.append("nanmark")      # an apply_masked had to exclude a stored pair (NaN mark in the α workspace)
+    if any(any(t == "nan" for t in r.get("R", [])) for r in outs): fl.append("nanrho")
     return "m%d/n%d/c%d%d%d/%s" % (p.mem, sq["n"], p.curv, p.fpd, int(p.cbfgs()), ",".join(fl))
 
 def seq_json(sq):
@@ -668,7 +704,7 @@ def run(ctx):
                             "(memory, n, policy flags, set of op kinds, wrap-around / rejection / forced / throw / masked-false / NaN-mark occurrence)")
     ctx.assumptions += ["binary64 rounding is not modelled in the theorems (ideal reals); the float run of the same definitions is compared with tolerance 2^-36",
                         "std::pow is a parameter of the model (theorems hold for every pow); the float run uses x, sqrt x, x*x, 1 for exponents 1, 1/2, 2, 0",
-                        "NaN<config_t> marks written by apply_masked are modelled as `None` in the stored ρ (option), read back as 0/0",
+                        "the NaN<config_t> mark apply_masked writes into the workspace α(i) of a pair it excludes is modelled as a bool of the slot (sl_skip), cleared by every ordinary assignment of α(i); std::isnan(α(i)) is `sl_skip || isnan α`, so a genuine NaN α at binary64 is skipped as in the code",
                         "memory is a natural number in the model (negative LBFGSParams::memory not modelled); index sets J are lists of in-range indices without repetition",
                         "uninitialised storage after resize is never read by the code paths modelled (only live slots are accessed)"]
     check_properties(ctx)
@@ -692,7 +728,7 @@ def run(ctx):
         return
     stats = {k: 0 for k in ["accepted", "rejected", "apply_checked", "apply_empty", "apply_undefined", "masked_checked", "masked_all_invalid",
                             "masked_with_skipped_pairs", "masked_negative_curvature_corner", "dense_blocks", "posdef_checked", "tie_discarded", "valid_checked",
-                            "ops_with_overwritten_rho"]}
+                            "masked_history_unchanged_checked"]}
     terms, owner = [], []
     pos = 0
     nops = 0
@@ -703,10 +739,15 @@ def run(ctx):
         for o in sq["ops"]:
             ctx.count("op:" + o["op"])
         nops += len(sq["ops"])
-        ctx.case(seq_signature(sq, so), sample={"sequence": seq_json(sq), "impl": so[-1]} if qi % 499 == 0 else None, n=max(1, len(sq["ops"])))
+        soft = []
+        skipped0 = stats["masked_with_skipped_pairs"] + stats["masked_all_invalid"]
         try:
-            oracle_seq(ctx, sq, so, stats)
+            oracle_seq(ctx, sq, so, stats, soft)
         except Bad as b:
+            soft.append(b)
+        marked = stats["masked_with_skipped_pairs"] + stats["masked_all_invalid"] > skipped0
+        ctx.case(seq_signature(sq, so, marked), sample={"sequence": seq_json(sq), "impl": so[-1]} if qi % 499 == 0 else None, n=max(1, len(sq["ops"])))
+        for b in soft:
             upto = sq["ops"][:b.k + 1] if b.k >= 0 else []
             replay_in = "\n".join([sq["p"].tok(sq["n"])] + [op_tok(o) for o in upto])
             ctx.violation(b.sig, b.why, {"driver": "drv_C09", "input": replay_in, "sequence": seq_json(dict(sq, ops=upto)),
